@@ -265,8 +265,8 @@ def duet_case(rng, case, history, site, variant, stats, want_op=None):
     h2 = next((x for x in hist2 if x["i"] == h["i"]), None)
     if h2 is None or h2.get("status") != "ok":
         return None
-    after = [w for w in (h2.get("ws") or []) if w > o]
-    at = o if variant.endswith("_pre") or not after else after[0]
+    post = X.post_of(h2, o)   # right after THIS write line (inner write lines of its callees complete earlier)
+    at = o if variant.endswith("_pre") or post is None else post
     before = sum(1 for x in hist2 if x["i"] < h["i"] and x.get("status") != "removed")
     grants = [[0, 0]] * before + [[0, 0], [1, 0]]
     switches = [{"step": h["i"], "at": at}]
@@ -305,8 +305,8 @@ def directed_plan(rng, case, history, site, variant) -> dict | None:
             continue
         for o, key in (h.get("wsk") or []):
             if tuple(key) == site:
-                after = [w for w in (h.get("ws") or []) if w > o]
-                at = o if variant.endswith("_pre") or not after else after[0]
+                post = X.post_of(h, o)
+                at = o if variant.endswith("_pre") or post is None else post
                 plan = {"exec": "preempt" if variant.startswith("switch") else "seq", "config": "directed:" + variant,
                         "faults": [], "fp": [], "evict_mid": [], "switch_at": [], "sched_seed": rng.getrandbits(48),
                         "quantum_mean": 300, "target_site": seam.site_str(site)}
